@@ -477,7 +477,7 @@ func namedStoreRule(c *Ctx, r *Report, rule string) {
 // handed on as they are: a callee that gets options derived per field (the reader's accessField replaces the merging
 // policy by the field's tag) combines the pieces of that field's value differently from the same data given as a map.
 func optionsThreadedRule(c *Ctx, r *Report) {
-	r.Rule("R05g", "every call from one normalize function to another hands over the caller's own *options parameter: no options derived per field or per key take part in putting an input together", 18)
+	r.Rule("R05g", "every call from one normalize function to another hands over the caller's own *options parameter: no options derived per field or per key take part in putting an input together", 12)
 	isOpts := func(t types.Type) bool {
 		pt, ok := t.(*types.Pointer)
 		return ok && isNamed(pt.Elem(), c.Pkgs[""].PkgPath, "options")
